@@ -630,8 +630,8 @@ def install(ex, store):
     add(r'(?:serde_json::)?from_slice::<.*>', from_json)
 
     # ---------------- clocks
-    add(r'(?:jiff::)?Timestamp::now', lambda ex, c, a: Agg('jiff::Timestamp', None, [ex.fresh_int('now'), 0]))
-    add(r'(?:jiff::)?Timestamp::as_second', lambda ex, c, a: deref(a[0]).fields[0] if isinstance(deref(a[0]), Agg) else 0)
+    add(r'(?:jiff::)?Timestamp::now', lambda ex, c, a: TimeV(ex.fresh_int('now', 0, 4000000000), 0))
+    install_time(ex)
     add(r'(?:std::time::)?Instant::now', lambda ex, c, a: Opaque('Instant'))
     add(r'(?:std::time::)?Instant::elapsed', lambda ex, c, a: Opaque('Duration'))
     return store
@@ -851,3 +851,74 @@ def bytes_slice_range(ex, m, a, fr, dest):
     if isinstance(p, Data):
         return p.slice(ex, start, end)
     raise Unsupported('slice of %r' % (p,))
+
+
+NANOS = 1000000000
+
+
+# ============================================================================ jiff::Timestamp model
+class TimeV(Model):
+    """jiff::Timestamp as (floor seconds, nanoseconds in [0, 1e9))."""
+    ty = 'Timestamp'
+
+    def __init__(self, sec, nanos):
+        self.sec, self.nanos = sec, nanos
+
+    def clone_model(self):
+        return self
+
+    def eq_model(self, ex, other):
+        other = deref(other)
+        return b_and(eq(self.sec, other.sec), eq(self.nanos, other.nanos))
+
+
+def install_time(ex):
+    I = ex.intercepts
+
+    def add(p, f):
+        I.insert(0, (re.compile('(?:' + p + r')$'), f))
+
+    def as_second(ex, c, a):
+        t = deref(a[0])
+        if not isinstance(t, TimeV):
+            return NotImplemented
+        # jiff truncates towards zero and reports a negative sub-second part before the epoch
+        return ite(b_and(b_lt(t.sec, 0), b_lt(0, t.nanos)), t.sec + 1, t.sec)
+
+    def subsec(ex, c, a):
+        t = deref(a[0])
+        if not isinstance(t, TimeV):
+            return NotImplemented
+        return ite(b_and(b_lt(t.sec, 0), b_lt(0, t.nanos)), t.nanos - NANOS, t.nanos)
+
+    def new(ex, c, a):
+        sec, ns = a[0], a[1]
+        if not ex.branch(b_and(b_lt(-NANOS, ns), b_lt(ns, NANOS)), 'Timestamp::new nanos range'):
+            return err(Opaque('jiff::Error'))
+        total_floor = ite(b_lt(ns, 0), sec - 1, sec)
+        n2 = ite(b_lt(ns, 0), ns + NANOS, ns)
+        lo, hi = -377705023201, 253402207200
+        if not ex.branch(b_and(b_not(b_lt(total_floor, lo)), b_not(b_lt(hi, total_floor))), 'Timestamp::new range'):
+            return err(Opaque('jiff::Error'))
+        return ok(TimeV(total_floor, n2))
+    def from_second(ex, c, a):
+        lo, hi = -377705023201, 253402207200
+        if not ex.branch(b_and(b_not(b_lt(a[0], lo)), b_not(b_lt(hi, a[0]))), 'Timestamp::from_second range'):
+            return err(Opaque('jiff::Error'))
+        return ok(TimeV(a[0], 0))
+    add(r'(?:jiff::)?Timestamp::from_second', from_second)
+    add(r'(?:jiff::)?Timestamp::as_second', as_second)
+    add(r'(?:jiff::)?Timestamp::subsec_nanosecond', subsec)
+    add(r'(?:jiff::)?Timestamp::new', new)
+
+    def ts_eq(ex, c, a):
+        x, y = deref(a[0]), deref(a[1])
+        if isinstance(x, TimeV) and isinstance(y, TimeV):
+            r = x.eq_model(ex, y)
+            return r if c.endswith('eq') else b_not(r)
+        return NotImplemented
+    add(r'<(?:jiff::)?Timestamp as PartialEq>::(eq|ne)', ts_eq)
+    add(r'<(?:jiff::)?Timestamp as Clone>::clone', lambda ex, c, a: deref(a[0]))
+    add(r'i32::cast_unsigned|core::num::<impl i32>::cast_unsigned', lambda ex, c, a: wrap(a[0], 'u32'))
+
+
